@@ -118,12 +118,8 @@ def opMerge3 : Op := fun j => do
   let c ← getDict j "c"
   let ab := mergeDataTrees ml ms a b
   let bc := mergeDataTrees ml ms b c
-  let left : Except TypeError Dict := match ab with
-    | .ok x => mergeDataTrees ml ms x c
-    | .error e => .error e
-  let right : Except TypeError Dict := match bc with
-    | .ok y => mergeDataTrees ml ms a y
-    | .error e => .error e
+  let left := mergeLeft ml ms a b c
+  let right := mergeRight ml ms a b c
   return Json.mkObj [
     ("wf", jBool (Dict.wf a && Dict.wf b && Dict.wf c)),
     ("ab", outcomeToJson ab), ("bc", outcomeToJson bc),
